@@ -4,7 +4,7 @@ import vlib
 from vlib import Infra, log
 
 RULE = ("Addresses (C->S): every address / state-init yielded by wallet.New(...).GetAddress, Wallet.StateInit, GenerateWalletAddress, "
-        "GenerateStateInit (12 versions x workchains {unset,0,-1,1,-128,127} x sub-wallet ids x network ids x seeded keys) and "
+        "GenerateStateInit (12 versions x workchains {unset,0,-1,1,-128,127} x sub-wallet ids x network ids (mainnet, testnet, small, > 16 and > 24 bits of both signs, pairs equal modulo 2^8 / 2^16 / 2^24) x seeded keys) and "
         "DefaultWalletFromSeed is accepted by WalletSend_Trace only if it equals Cells!ReprHash of the StateInit cell built in TLA+ from "
         "the published code (bags parsed by Boc!Parse, root hashes pinned to the published code hashes) and the version's documented "
         "initial data; one Distinct judgement over all recorded addresses requires different inputs -> different addresses (over the inputs a version takes; versions "
@@ -345,6 +345,13 @@ def addr_part(ck, codes, out):
             if not e["_ok"]:
                 rejected.append(e)
     kinds = collections.Counter(e["k"] for e in events)
+    # vacuity: the network-id classes the v5 clauses need (wide ids of both signs, ids equal modulo 2^8 / 2^16 / 2^24)
+    for ver in ("V5Beta", "V5R1"):
+        nets = {e["net"] for e in events if e["k"] == "Addr" and e["ver"] == ver and e["has_net"]}
+        wide = lambda bits: any(n >= 2 ** bits for n in nets) and any(n < -2 ** bits for n in nets)
+        cong = lambda bits: any(a != b and (a - b) % 2 ** bits == 0 for a in nets for b in nets)
+        if not (wide(15) and wide(23) and cong(8) and cong(16) and cong(24)):
+            raise Infra("address driver lacks wide / congruent network ids for %s: %s" % (ver, sorted(nets)))
     # observations outside the statement (never violations)
     obs["v5r1-sub-wallet-option-not-an-input"] = sum(1 for e in events if e["k"] == "Addr" and e["ver"] == "V5R1" and e["sub"] not in ("", "0") and e["_ok"])
     out["observations"] = dict(obs)
@@ -524,6 +531,8 @@ def canaries(ck, codes, send, addr):
     add("C->S addr: one hex digit of the address changed", upd(lambda e: e["api"] == "New.GetAddress", addr=lambda c: flip(c["addr"])))
     add("C->S addr: logged sub-wallet id changed", upd(lambda e: e["ver"] == "V3R2" and e["sub"] == "1", sub="0"))
     add("C->S addr: logged network id changed (v5r1)", upd(lambda e: e["ver"] == "V5R1" and e["has_net"] and e["net"] == -3, net=-239))
+    for ver in ("V5R1", "V5Beta"):
+        add("C->S addr: network id 65533 logged as -3 (equal modulo 2^16, %s)" % ver, upd(lambda e, ver=ver: e["ver"] == ver and e["has_net"] and e["net"] == 65533, net=-3))
     add("C->S addr: logged workchain changed (the default sub-wallet id depends on it)",
         upd(lambda e: e["ver"] == "V4R2" and e["wc_set"] and e["wc"] == -1 and e["sub"] == "" and e["api"] == "GenerateStateInit", wc=0, awc=0))
 
